@@ -1,6 +1,6 @@
 -------------------------- MODULE MediaCacheTrace --------------------------
 (* Trace judge for C12.  A trace is one real request:
-     [stack, handler: "json"|"form"|"none", body: "empty"|"valid"|"truncated"|"badenc"|"cut", wire, ev]
+     [stack, framing, handler: "json"|"form"|"none", body: "empty"|"valid"|"truncated"|"badenc"|"cut", wire, ev]
    body is classified by the trusted decoders (json.loads / bytes.decode); "cut" is a truncated
    form body, for which the handler may give a mapping or a malformed error (both runs are tried).
    ev: one event per get_media()/media access inside the responder, logged at its return:
@@ -23,13 +23,14 @@ EXTENDS MediaCache, Json, IOUtils
 
 Traces == JsonDeserialize(IOEnv.TRACE_FILE)
 IdHandler == [c \in {"json", "form", "none"} |-> c]
+AnyFraming == [s \in {"wsgi", "asgi"} |-> {"length", "chunked"}]
 
 VARIABLES tid, l, verdict, dnote
-tvars == <<tid, l, verdict, dnote, stack, ctype, body, cache, consumed, parses, last>>
+tvars == <<tid, l, verdict, dnote, stack, framing, ctype, body, cache, consumed, parses, last>>
 T == Traces[tid]
 
 TInit == /\ tid \in 1..Len(Traces) /\ l = 1 /\ verdict = "ok" /\ dnote = "ok"
-         /\ stack = Traces[tid].stack /\ ctype = Traces[tid].handler
+         /\ stack = Traces[tid].stack /\ framing = Traces[tid].framing /\ ctype = Traces[tid].handler
          /\ body \in (IF Traces[tid].body = "cut" THEN {"valid", "badenc"} ELSE {Traces[tid].body})
          /\ cache = Unset /\ consumed = FALSE /\ parses = 0
          /\ last = Rec("init", FALSE, "none", "none", "none", FALSE, FALSE)
@@ -62,7 +63,7 @@ Wire == IF T.wire = -1 \/ verdict # "ok" THEN verdict
 Done ==
     /\ l >= 1 /\ (l > Len(T.ev) \/ verdict # "ok")
     /\ PrintT(<<"VERDICT", tid, IF Wire = "ok" THEN dnote ELSE Wire, l - 1>>)
-    /\ l' = -1 /\ UNCHANGED <<tid, verdict, dnote, stack, ctype, body, cache, consumed, parses, last>>
+    /\ l' = -1 /\ UNCHANGED <<tid, verdict, dnote, stack, framing, ctype, body, cache, consumed, parses, last>>
 
 TNext == Step \/ Done
 TSpec == TInit /\ [][TNext]_tvars
